@@ -120,6 +120,23 @@ PadTop(b, pos) ==
                    ELSE Raw(b, p, e - p)
        IN PadV(Raw(b, pos, k.n)) \o body \o PadTop(b, e)
 
+\* a varint that does not fit its field's type is cast to it (the high bits are dropped; any non-zero bool is true):
+\* WideTop re-writes the top-level records of 32-bit integer / enum fields with bit 32 set, and TRUE as 2
+RECURSIVE WideTop(_, _, _)
+WideTop(m, b, pos) ==
+  IF pos >= Len(b) THEN <<>>
+  ELSE LET k == DecKey(b, pos)
+           p == pos + k.n
+           e == SkipRec(b, p, k.tag, k.wt, MaxGroupDepth)
+           fidx == {j \in 1..Len(m.fields) : m.fields[j].tag = k.tag}
+           f == m.fields[CHOOSE j \in fidx : TRUE]
+           u == DecUVarint(b, p, 64).val
+           wide == k.wt = WT_VARINT /\ fidx # {} /\ f.label \in {"singular", "optional", "required"} /\ f.oneof = ""
+           body == IF wide /\ SK(f.ty) \in {"uint32", "int32", "enum"} /\ u[3] < 65535 THEN UVarint([u EXCEPT ![3] = u[3] + 1])
+                   ELSE IF wide /\ SK(f.ty) = "bool" /\ u = FromInt(1, 64) THEN <<2>>
+                   ELSE Raw(b, p, e - p)
+       IN Raw(b, pos, k.n) \o body \o WideTop(m, b, e)
+
 \* unknown fields (tags no corpus message declares): one per wire type, plus a group holding a group
 UTag == 19000
 Unknowns == << KeyBytes(UTag, WT_VARINT) \o <<172, 2>>,
@@ -157,6 +174,8 @@ CasesOfMsg(D, m) ==
       padded == LET e == PadTop(encs[2], 0) IN
                 IF Assert(Dec(D, name, e).v = Norm(D, name, vals[2].fs), <<"padded varints do not decode to the value", name>>)
                 THEN <<Case(D.name, name, "alt", "padded-varints", e, encs[2], <<>>, <<>>)>> ELSE <<>>
+      widened == LET e == WideTop(m, encs[2], 0) IN
+                 IF e = encs[2] THEN <<>> ELSE <<Case(D.name, name, "alt", "overflowing-varints", e, encs[2], <<>>, <<>>)>>
       ra == RecBytes(D, name, vals[2])
       rb == RecBytes(D, name, vals[3])
       ab == encs[2] \o encs[3]
@@ -183,7 +202,7 @@ CasesOfMsg(D, m) ==
                                     ELSE KeyBytes(f.tag, WT_LEN) \o LenPrefix(Len(body(u))) \o body(u)
                      IN [u \in 1..Len(Unknowns) |->
                            Case(D.name, name, "unknown", "nested-" \o UnkNames[u], InsertSeq([ra EXCEPT ![i] = part(u)], 0, <<>>), encs[2], <<>>, <<>>)]
-  IN IF Assert(thm, <<"Dec(Enc(x)) # x", D.name, name>>) THEN canon \o alts \o padded \o merges \o unk \o nested ELSE <<>>
+  IN IF Assert(thm, <<"Dec(Enc(x)) # x", D.name, name>>) THEN canon \o alts \o padded \o widened \o merges \o unk \o nested ELSE <<>>
 
 RECURSIVE CasesOfSchema(_, _)
 CasesOfSchema(D, i) == IF i > Len(D.messages) THEN <<>> ELSE CasesOfMsg(D, D.messages[i]) \o CasesOfSchema(D, i + 1)
